@@ -1109,6 +1109,9 @@ def stage_name_index_views(ctx: Ctx):
     """deterministic: NAME indexing (view['g']) of statement lists through every bounded view [a:b] and the full view: get / at() / assignment / deletion address exactly the definition
     of that name among the elements of the view (the same node, and the same result as the operation by integer index on the base field); a name outside the view is refused"""
     import fst
+    VN_HDR = ('From Coq Require Import List Arith Bool.\nFrom PF Require Import models.ViewName.\nImport ListNotations.\n'
+              'Definition on_eqb (a b : option nat) : bool := match a, b with Some x, Some y => Nat.eqb x y | None, None => true | _, _ => false end.\n')
+    vn_terms, vn_meta, vn_ids = [], [], {}
     for src, mode, path, fields in NAME_INDEX_PROGS:
         for field in fields:
             def fresh():
@@ -1135,6 +1138,25 @@ def stage_name_index_views(ctx: Ctx):
                         ctx.tick(('name-index', src, field, a_, b_, name), 'name-index:' + ('inside' if inside else 'outside'))
                         # get / at
                         r, b, v = fresh()
+                        if name != 'inner' and b_ is not None:
+                            # models/ViewName.v: the names of the REAL field, the view's bounds, the docstring offset of `_body`
+                            real_field = 'body' if field == '_body' else field
+                            off = len(getattr(b.a, real_field)) - len(v)
+                            nm = lambda e: (vn_ids.setdefault(e.name, len(vn_ids) + 1) if isinstance(e, (ast.FunctionDef, ast.AsyncFunctionDef, ast.ClassDef)) else None)
+                            names_ = '[' + '; '.join('None' if nm(e) is None else f'Some {nm(e)}' for e in getattr(b.a, real_field)) + ']'
+                            try:
+                                gotn = view_of(v)[name]
+                                els = list(view_of(v))
+                                obs = next((k for k, e in enumerate(els) if e is gotn), None)
+                                obs_s = 'None' if obs is None else f'(Some {obs})'
+                                direct = gotn.parent is b
+                            except IndexError:
+                                obs_s, direct = 'None', True
+                            except Exception:
+                                direct = False
+                            if direct:
+                                vn_terms.append(f'on_eqb (name_index {names_} {a_} {b_} {off} {vn_ids.setdefault(name, len(vn_ids) + 1)}) {obs_s}')
+                                vn_meta.append({**rec, 'observed_index_in_view': obs_s})
                         for how in ('getitem', 'at'):
                             try:
                                 got = view_of(v)[name] if how == 'getitem' else view_of(v).at(name)
@@ -1172,6 +1194,12 @@ def stage_name_index_views(ctx: Ctx):
                                 if d:
                                     ctx.violation(f'name-index|{how}|tree', 'after assignment / deletion by name the tree differs from the parse of the source', {**rec, 'how': how, 'diffs': d[:4]})
 
+
+    try:
+        failed = coq_eval_bools('C03_viewname', VN_HDR, vn_terms, shard=300)
+        ctx.correspondence("models/ViewName.v name_index == the position, among the elements of the view, of the node view['name'] returns (None = refused), every bounded view x every name", len(vn_terms), [vn_meta[k] for k in failed])
+    except CoqEvalError as e:
+        ctx.broken.append({'kind': 'correspondence', 'name': 'viewname', 'detail': str(e)[:2000]})
 
 def stage_optional_and_glued(ctx: Ctx):
     """deterministic: (a) every optional single-node field next to a PARENTHESIZED required neighbour created / replaced / deleted through every entry point with one-line and multi-line
